@@ -244,7 +244,7 @@ Inductive expr :=
 | ELet (x : nat) (e1 body : expr)               (* let mut x = e1; body *)
 | EAssign (x : nat) (e : expr)
 | ESeq (e1 e2 : expr)                           (* e1; e2 *)
-| ELoop (body : expr)
+| ELoop (t : ty) (body : expr)                   (* t = type of the loop = of its break values *)
 | EWhile (c body : expr)
 | EBreak (t : ty) (e : expr)                    (* break e  (e = unit for a bare break) *)
 | EContinue (t : ty)
@@ -460,9 +460,9 @@ Fixpoint eval (p : prog) (n : nat) (s : env) (e : expr) {struct n} : res * env :
         bindv (eval p n s e1) (fun v s1 =>
           match update x v s1 with Some s2 => unit_res s2 | None => stuck s1 end)
     | ESeq e1 e2 => bindv (eval p n s e1) (fun _ s1 => eval p n s1 e2)
-    | ELoop body =>
+    | ELoop t body =>
         match eval p n s body with
-        | (RVal _, s1) | (RCont, s1) => eval p n s1 (ELoop body)
+        | (RVal _, s1) | (RCont, s1) => eval p n s1 (ELoop t body)
         | (RBrk v, s1) => (RVal v, s1)
         | x => x
         end
@@ -550,8 +550,9 @@ Fixpoint eval (p : prog) (n : nat) (s : env) (e : expr) {struct n} : res * env :
         bindv (eval p n s i) (fun iv s1 =>
           match iv, lookup x s1 with
           | VInt z, Some (VArr l) =>
-              if z <? 0 then stuck s1
-              else if z <? Z.of_nat (length l) then
+              (* the range test comes first: [Z.to_nat] of a large index must never be computed
+                 (an index is a u32, so it is never negative in a run from in-range inputs) *)
+              if (0 <=? z) && (z <? Z.of_nat (length l)) then
                 match nth_error l (Z.to_nat z) with
                 | Some w => (RVal w, s1)
                 | None => stuck s1
